@@ -812,11 +812,63 @@ def rule_seek_back_offset(prog, fixture=False):
     return r
 
 
+# ---------------------------------------------------------------- R-C10-11
+def rule_no_size_limit(prog, fixture=False):
+    r = RuleResult("R-C10-11", "decompression is not cut off by a size limit of its own: no throw/return/break in the "
+                   "function that runs inflate() is controlled by a comparison of a running total (a variable the loop "
+                   "adds to) with a constant - the plain file has no such limit, so a large valid image (a full MMB) "
+                   "would open uncompressed and fail compressed", floor=0 if fixture else 1)
+    for fn in prog.functions.values():
+        if not any(n.get("k") == "CallExpr" and notpl(n.get("q") or "") == "inflate" for n in fn.walk()):
+            continue
+        totals = set()
+        for n in fn.walk():
+            if n.get("k") == "CompoundAssignOperator" and n.get("op") == "+=" and \
+                    any(a.get("k") in ("WhileStmt", "ForStmt", "DoStmt") for a in fn.ancestors(n)):
+                t = strip_all(n["c"][0])
+                if t is not None and t.get("k") == "DeclRefExpr" and t.get("dk") == "Var":
+                    totals.add(t["d"])
+
+        def constant(e, depth=0):
+            e = strip_all(e)
+            if e is None:
+                return False
+            if folded(e) is not None:
+                return True
+            if e.get("k") == "DeclRefExpr" and e.get("dk") == "Var" and depth < 3 and \
+                    not any(d_ == e["d"] for x in fn.walk() for d_, _ in flow.written_decls(x) if x.get("k") not in ("VarDecl", "DeclStmt")):
+                for v in fn.walk():
+                    if v.get("k") == "VarDecl" and v.get("d") == e["d"] and v.get("c"):
+                        return constant(v["c"][0], depth + 1) or all(
+                            y.get("k") != "DeclRefExpr" or y.get("dk") != "Var" or constant(y, depth + 1) for y in walk(v["c"][0]))
+            return False
+        bad = None
+        for n in fn.walk():
+            if n.get("k") not in ("CXXThrowExpr", "BreakStmt", "ReturnStmt"):
+                continue
+            for a in fn.ancestors(n):
+                if a.get("k") != "IfStmt":
+                    continue
+                for c in walk(a["c"][a["parts"]["cond"]]):
+                    if c.get("k") == "BinaryOperator" and c.get("op") in (">", ">=", "<", "<="):
+                        l, rr = strip_all(c["c"][0]), strip_all(c["c"][1])
+                        for x, y in ((l, rr), (rr, l)):
+                            if x is not None and x.get("k") == "DeclRefExpr" and x.get("d") in totals and constant(y):
+                                bad = (c, n)
+        key = "%s::%s::size-limit" % (fn.relfile(), fn.qn)
+        r.add(key, fn.loc(bad[0]) if bad else "%s:%d" % (fn.relfile(), fn.line), bad is None,
+              "no exit depends on a running total (%d totals looked at)" % len(totals) if bad is None else
+              "`%s` stops decompression when a running total passes a fixed limit: a valid image larger than the limit "
+              "is refused when compressed although it opens when not" % show(bad[0])[:50])
+    return r
+
+
 def run(ctx):
     prog = ctx.prog("dfs", "N")
     return [rule_hint_name(prog), rule_gzip_only(prog), rule_zlib_census(prog), rule_all_members(prog),
             rule_openers(prog), rule_read_length(prog), rule_counters_after_reset(prog),
-            rule_no_carried_static_state(prog), rule_short_read_keeps_data(prog), rule_seek_back_offset(prog)]
+            rule_no_carried_static_state(prog), rule_short_read_keeps_data(prog), rule_seek_back_offset(prog),
+            rule_no_size_limit(prog)]
 
 
 SELFTESTS = [
